@@ -20,16 +20,18 @@ LEVEL = "model_checking"
 
 FLAGS = {"F": 1, "C": 0, "L": 2, "U": 3}
 SYMS = [(f, a, s) for f in "FCLU" for a in (0, 1) for s in (1, 2)]  # 16 symbols
+# a second alphabet on ONE APID whose sequence count may also repeat (step 0: a duplicated / retransmitted segment) or go back (step -1)
+SYMS_B = [(f, 0, s) for f in "FCLU" for s in (1, 2, 0, -1)]
 APIDS = (0x0A1, 0x2B2)
 
 
-def build_history(hist, base, k, vary=False, skip=0):
+def build_history(hist, base, k, vary=False, skip=0, syms=None):
     """-> (stream bytes, [packet bytes], [(flag, apid_index, count, tag)]).  With vary=True the header bits that do not take part in
     reassembly (version, type, secondary-header flag) differ from packet to packet."""
     counts = {0: (base - 1) % 16384, 1: (base + 5 - 1) % 16384}
     pkts, meta = [], []
     for i, si in enumerate(hist):
-        f, a, step = SYMS[si]
+        f, a, step = (syms or SYMS)[si]
         counts[a] = (counts[a] + step) % 16384
         tag = 0x10 + i
         data = bytes([0xE0 + j for j in range(k)]) + bytes([tag, tag ^ 0xFF])
@@ -89,8 +91,9 @@ def tags_of(raw: bytes, k):
     return [raw[i] for i in range(6 + k, len(raw) - 1, 2) if raw[i] ^ raw[i + 1] == 0xFF]
 
 
-def check_history(t: Tally, defn, hist, base, k, states, vary=False, skip=0):
-    stream, pkts, meta = build_history(hist, base, k, vary, skip)
+def check_history(t: Tally, defn, hist, base, k, states, vary=False, skip=0, alphabet="A"):
+    syms = SYMS_B if alphabet == "B" else SYMS
+    stream, pkts, meta = build_history(hist, base, k, vary, skip, syms)
     want = model(pkts, meta, k, states)
     got, nwarn = run_impl(defn, stream, k, skip)
     t.evals += 1
@@ -117,7 +120,8 @@ def check_history(t: Tally, defn, hist, base, k, states, vary=False, skip=0):
         after_last = any(meta[i][0] == "L" and any(m[1] == meta[i][1] and m[0] in "CL" for m in meta[i + 1:]) for i in range(len(meta)))
         t.violation({"kind": "reassembly", "observed": okind, "stale_group_reuse": bool(after_last and okind == "mismatch"),
                      "secondary_header_bytes": k},
-                    {"history": [list(SYMS[s]) for s in hist], "hist_idx": list(hist), "base": base, "k": k, "vary_header_bits": vary, "skip_header_bytes": skip},
+                    {"history": [list(syms[s]) for s in hist], "hist_idx": list(hist), "base": base, "k": k, "vary_header_bits": vary, "skip_header_bytes": skip,
+                     "alphabet": alphabet},
                     expected=[w.hex() for w in want],
                     observed=[g.hex() for g in got] if not isinstance(got, tuple) else list(got), note=why)
 
@@ -138,6 +142,9 @@ def _task(task):
                     if n <= task.get("vary_upto", 4):
                         check_history(t, defn, hist, task["bases"][-1], 0, states, vary=True)
                         check_history(t, defn, hist, task["bases"][0], (first + n) % 3, states, skip=3 + (first % 2))
+                    if n <= task.get("alphabet_b_upto", 4):
+                        for base in task["bases"]:
+                            check_history(t, defn, hist, base, 0, states, alphabet="B")
                     t.nontrivial += any(SYMS[s][0] in "FCL" for s in hist)
     except BaseException as e:  # noqa: BLE001
         t.violation({"kind": "sweep-aborted", "exc": type(e).__name__}, {"length": n, "firsts": task["firsts"]}, observed=repr(e)[:200])
@@ -174,7 +181,7 @@ def run(ctx):
         "exhaustive": True,
         "bound": (f"EVERY history of length <= {max_len} over 16 symbols ({{F,C,L,U}} x 2 APIDs x sequence step {{+1,+2}})"
                   + ("" if ctx.quick else " (length 5, 6 halved by APID symmetry; length 6 with base 16382 and no secondary header)")
-                  + "; histories of length <= 4 also with version/type/secondary-header-flag bits that differ from packet to packet, and as raw records (3 or 4 foreign bytes before every packet, skip_header_bytes) with secondary headers of 0..2 bytes; base sequence counts {0, 16382} (wrap-around inside the history); secondary_header_bytes {0,1,3} on the shorter histories; "
+                  + "; histories of length <= 4 also with version/type/secondary-header-flag bits that differ from packet to packet, on a second alphabet ({F,C,L,U} on one APID x sequence step {+1,+2,0 (repeated count),-1}), and as raw records (3 or 4 foreign bytes before every packet, skip_header_bytes) with secondary headers of 0..2 bytes; base sequence counts {0, 16382} (wrap-around inside the history); secondary_header_bytes {0,1,3} on the shorter histories; "
                   "every history runs in a fresh generator but all of them on ONE definition object per worker, so group state that outlives a generator "
                   "(or is shared between generators) makes later histories disagree with the model"),
         "rule": ("one evaluation = one history replayed on a fresh generator and on the model; distinct non-trivial = distinct histories containing at "
@@ -187,7 +194,7 @@ def run(ctx):
 
 def replay(case):
     t = Tally()
-    check_history(t, header_only_definition(), tuple(case["hist_idx"]), case["base"], case["k"], None, vary=case.get("vary_header_bits", False), skip=case.get("skip_header_bytes", 0))
+    check_history(t, header_only_definition(), tuple(case["hist_idx"]), case["base"], case["k"], None, vary=case.get("vary_header_bits", False), skip=case.get("skip_header_bytes", 0), alphabet=case.get("alphabet", "A"))
     return t.violations[0] if t.violations else None
 
 
